@@ -97,3 +97,43 @@ Proof.
   rewrite Pt. exact R.
 Qed.
 Print Assumptions to_postgres_on_escaped_value_u.
+
+(* the same text handed to ToParameterizedPostgres: a placeholder in the SQL, w - verbatim - as the only parameter *)
+Theorem to_param_postgres_on_escaped_value_u :
+  forall (o : oracle) (o2 : oracle2) (cl : Lex.classes),
+  Lex.is_letter cl 34%N = false /\ Lex.is_digit cl 34%N = false ->
+  Lex.is_letter cl 58%N = false /\ Lex.is_digit cl 58%N = false ->
+  Lex.is_letter cl 92%N = false /\ Lex.is_digit cl 92%N = false ->
+  (forall r, Lex.is_space r = true -> Lex.is_alnum cl r = false) ->
+  Lex.is_alnum cl Lex.rune_error = false ->
+  forall (c0 : ascii) (f : list ascii) (d0 : ascii) (w : list ascii),
+  forallb (LexField.wordc cl) (c0 :: f) = true -> Lex.word_type (c0 :: f) = TLiteral ->
+  Lex.word_type (LexEscapeU.esc cl (d0 :: w)) = TLiteral ->
+  forallb (fun c => negb (Ascii.eqb c "\"%char)) (d0 :: w) = true ->
+  let fs := string_of_list_ascii (c0 :: f) in let ws := string_of_list_ascii (d0 :: w) in
+  let es := string_of_list_ascii (LexEscapeU.esc cl (d0 :: w)) in
+  contains_char "*"%char ws = false -> contains_char "?"%char ws = false ->
+  atoi es = None -> match parse_float o es with Some x => is_nan_or_inf o x = true | None => True end ->
+  parse_literal o {| typ := TLiteral; val := fs |} = lit (VStr fs) ->
+  name_ok fs = true -> col_ok o2 fs = true -> valid_utf8 o2 "?" = true ->
+  exists s : string,
+    Api.to_param_postgres o o2 cl "" (escaped_text_u cl (c0 :: f) (d0 :: w)) = Ret (s, [VStr ws], None) /\
+    pg_read (number_placeholders (str s)) = Some (past fs) /\
+    forall r : row, ssem r [RStr ws] (past fs) = qsem r (qtree fs ws).
+Proof.
+  intros o o2 cl Hq Hc Hb Hws Her c0 f d0 w Hf Ht He Hnb fs ws es Hs Hqm Hat Hfl Pl Nm Co Vq.
+  assert (Rm : remove_char "\"%char es = ws) by (apply (esc_u_remove cl); [apply le_n|exact Hnb]).
+  assert (Cs : contains_char "*"%char es = false) by (unfold es, LexEscapeU.esc; rewrite (esc_u_contains cl "*"%char eq_refl) by apply le_n; exact Hs).
+  assert (Cq : contains_char "?"%char es = false) by (unfold es, LexEscapeU.esc; rewrite (esc_u_contains cl "?"%char eq_refl) by apply le_n; exact Hqm).
+  assert (Nst : String.eqb ws "*" = false).
+  { destruct (String.eqb ws "*") eqn:E; [|reflexivity]. apply String.eqb_eq in E. rewrite E in Hs. discriminate. }
+  pose proof (escaped_value_tree o {| typ := TLiteral; val := fs |} fs es ws eq_refl Pl Hat Hfl Cs Cq Rm) as Pt.
+  destruct (quoted_value_travels_as_parameter o2 fs ws Nst Nm Co Vq) as [s [R [Rd Sm]]].
+  exists s. split; [|split; assumption].
+  unfold Api.to_param_postgres, Api.parse, Api.lex_tokens, escaped_text_u. rewrite QuoteText.los_sola.
+  rewrite (LexEscapeU.lex_field_escaped_u cl Hq Hc Hb Hws Her c0 f d0 w Hf Ht He). cbn [map]. unfold Api.tok_of. cbn [Lex.typ Lex.val].
+  change (match parse_toks o "" [{| typ := TLiteral; val := fs |}; colon_tok; EscapePipeline.word_tok es; eof] with
+          | PTree e => render_param o2 e | PErr => Ret ("", [], Some "parse error") | PPanic p => Panic p | POutOfFuel => Panic "out of fuel" end = Ret (s, [VStr ws], None)).
+  rewrite Pt. exact R.
+Qed.
+Print Assumptions to_param_postgres_on_escaped_value_u.
